@@ -33,10 +33,15 @@ VMovedFromOK(pre, post) == post # None /\ (post.i = -1 \/ post.i = pre.i)    \* 
 VNextSlot(pre, op) ==      \* the new value of slot op.o + 1 for an operation that did not throw
   LET o == op.o + 1
       p == Def(op, "p", 0) + 1 IN
-  CASE op.op \in {"new_empty", "new_ev", "assign_ev"} -> VEmpty
-    [] op.op \in {"new_a", "assign_a", "new_c", "assign_c"} -> [i |-> 0, v |-> op.val]
+  \* (the *_sub_* operations construct / assign from a Variant over other types - here <B, A> - holding an A, a B or
+  \* nothing: "each element of OtherTypes must be convertible to an element of Types")
+  CASE op.op \in {"new_empty", "new_ev", "assign_ev", "new_sub_empty", "assign_sub_empty"} -> VEmpty
+    [] op.op \in {"new_a", "assign_a", "new_c", "assign_c", "new_sub_a", "assign_sub_a"} -> [i |-> 0, v |-> op.val]
     [] op.op \in {"new_i", "assign_i"} -> [i |-> 1, v |-> op.val]
-    [] op.op \in {"new_b", "assign_b"} -> [i |-> 2, v |-> op.val]
+    [] op.op \in {"new_b", "assign_b", "new_sub_b", "assign_sub_b"} -> [i |-> 2, v |-> op.val]
+    \* IfAnyOf<A>::Swap / Take act on the value only when an A is active; the alternative never changes
+    [] op.op = "swap_a" -> IF pre[o].i = 0 THEN [i |-> 0, v |-> op.val] ELSE pre[o]
+    [] op.op = "take_a" -> pre[o]
     [] op.op \in {"new_copy", "new_move", "assign_copy", "assign_move"} -> pre[p]
     [] op.op = "become" -> IF op.idx = pre[o].i THEN pre[o]
                            ELSE IF op.idx \in {0, 1, 2} THEN [i |-> op.idx, v |-> 0] ELSE VEmpty
@@ -46,7 +51,8 @@ VNextSlot(pre, op) ==      \* the new value of slot op.o + 1 for an operation th
 VPre(pre, op) ==           \* is the operation applicable (the generator may emit inapplicable ones: ignored)
   LET o == op.o + 1
       p == Def(op, "p", 0) + 1 IN
-  /\ (op.op \in {"new_empty", "new_ev", "new_a", "new_b", "new_c", "new_i", "new_copy", "new_move"}) <=> pre[o] = None
+  /\ (op.op \in {"new_empty", "new_ev", "new_a", "new_b", "new_c", "new_i", "new_copy", "new_move",
+                  "new_sub_a", "new_sub_b", "new_sub_empty"}) <=> pre[o] = None
   /\ (op.op \in {"new_copy", "new_move", "assign_copy", "assign_move"}) => pre[p] # None
 
 IsMove(op) == op.op \in {"new_move", "assign_move"}
@@ -65,6 +71,8 @@ VPost(pre, op, post, threw) ==
        /\ VMovedFromOK(pre[p], post[p])
   ELSE IF IsMove(op)     \* self move-assignment: still a valid object of the same alternative
   THEN Same(pre, post, {o}) /\ VMovedFromOK(pre[o], post[o])
+  ELSE IF op.op = "take_a"   \* the value of an active A is moved out: still an A, contents unspecified
+  THEN Same(pre, post, {o}) /\ post[o] # None /\ post[o].i = pre[o].i /\ (pre[o].i # 0 => post[o] = pre[o])
   ELSE post = [pre EXCEPT ![o] = VNextSlot(pre, op)]
 
 VNext(pre, op) ==
